@@ -321,6 +321,8 @@ func runC11(c *Ctx, r *Report) {
 	c11Docs(c, r)
 	c11Clamp(c, r)
 	c11Csv(c, r)
+	// (d) a helper is a function of its arguments: stage closures keep no state between evaluations
+	c05StagePurity(c, r, "C11-d")
 }
 
 func c11ErrorMarkers(c *Ctx, r *Report) {
